@@ -521,7 +521,8 @@ def step {Pat : Type} (E : Env Pat) (c : NCfg Pat) (s0 : Sess) (e : Ev) : Sess :
     match e with
     | .connOk => relayAll { s with phase := .relay, queue := [], server := ⟨true, true⟩, connected := true } s.queue
     | .connErr =>
-      { (s.emit ((if s.flow then [Out.hook 3] else []) ++ [.close false false])) with
+      -- (a CloseConnection for a client that is already gone — UDP after its close — is dropped by the server loop)
+      { (s.emit ((if s.flow then [Out.hook 3] else []) ++ (if s.client.closed then [] else [.close false false]))) with
           phase := .failed, client := ⟨false, false⟩ }
     | _ => { s with queue := s.queue ++ [e] }
   | .relay => relayEv s e
